@@ -144,6 +144,8 @@ def gen_cases(rng, tier):
             else:
                 recs.append(V.gen_record(r, descspec=r.choice(descs)))
         case = {"kind": "stream", "via": r.choice(["fileobj", "fileobj", "path", "gz"]), "records": recs}
+        if case["via"] == "fileobj" and r.chance(20):
+            case["behind"] = True
         if r.chance(15):
             # a comparison-ignore configuration is in force while the records are written and read (FLOW_RECORD_IGNORE /
             # set_ignored_fields_for_comparison): it concerns == and hash() only, never what is stored
@@ -418,8 +420,16 @@ def run_real(case):
                 w.flush()
                 data = buf.getvalue()
                 w.fp = None  # keep the BytesIO out of __del__'s close()
-                rd = RecordStreamReader(io.BytesIO(data))
+                if case.get("behind"):
+                    # the stream sits BEHIND other data in one file object, which stands at the stream's first byte
+                    pre = b"CONTAINER-HEADER" * 4
+                    f_ = io.BytesIO(pre + data)
+                    f_.seek(len(pre))
+                    mk_rd = lambda: RecordReader(fileobj=f_)                 # noqa: E731
+                else:
+                    mk_rd = lambda: RecordStreamReader(io.BytesIO(data))     # noqa: E731
                 try:
+                    rd = mk_rd()
                     got = list(rd)
                     err = None
                 except Exception as e:
